@@ -24,6 +24,11 @@ RULE = ("sweep: one case per (configuration, row) for table rows, per (configura
         "reading of the source text with cells addressed by the documented column names; every case is non-trivial "
         "and distinct by that key.")
 ASSUMPTIONS = [
+    "interpreter modes: the row / no-row clauses and all energy-table nodes (scalar and vector) are also judged on the "
+    "values dumped by a child interpreter started with -O, -OO and -W error::DeprecationWarning, whose first touch of "
+    "the neutron data is an attribute read, either unguarded ('plain') or inside try/except followed by a second read "
+    "('guarded', public and a private table); the unchanged tree loads under all three, so a child that fails is "
+    "c07:mode:<flags>:child-failed and a guarded first touch that raises is c07:mode:<flags>:first-touch-raised",
     "energy scan: every energy-dependent entry is also queried through one ndarray object refilled in place with other "
     "tabulated energies (4 fills x 2 calls of scattering_by_wavelength, then sld() and scattering()): each answer is "
     "judged by the table for the values the array holds at that moment (abs 1e-12; sigma_s = 4 pi |b|^2/100 rel 1e-9), the "
@@ -129,8 +134,259 @@ def _mass_isotopes(table):
     return _MASS_ISO[key]
 
 
+# ----------------------------------------------------------------------
+# Interpreter modes: configurations "mode:<flags>:<variant>:<table>".  A child interpreter (/venv/bin/python <flags>,
+# PYTHONPATH = the repository under test) loads the neutron data by a first attribute read (variant 'plain': unguarded;
+# 'guarded': the first touch sits in try/except and everything is read again afterwards), initialises a private table
+# too, and dumps every main-table field of every element and isotope plus every energy-table node evaluated through
+# scattering_by_wavelength (scalar and vector).  The parent wraps the dump in read-only stand-ins and runs the
+# ordinary row / no-row clauses on them; nodes are compared by check_mode_node.
+MODES = {"O": ["-O"], "OO": ["-OO"], "W-error-DeprecationWarning": ["-W", "error::DeprecationWarning"]}
+MODE_CHILD = r"""
+import json, sys
+req = json.load(sys.stdin)
+import periodictable
+from periodictable import core, mass, density
+
+def exc(e):
+    return {"exc": "%s: %s" % (type(e).__name__, e)}
+
+def val(f):
+    try:
+        v = f()
+    except BaseException as e:
+        return exc(e)
+    if v is None or isinstance(v, (bool, int, float, str)):
+        return v
+    if isinstance(v, complex) or type(v).__name__.startswith("complex"):
+        return {"complex": [float(v.real), float(v.imag)]}
+    if isinstance(v, tuple):
+        return {"tuple": [val(lambda x=x: x) for x in v]}
+    try:
+        return float(v)
+    except Exception:
+        return {"exc": "unexpected value %r" % (v,)}
+
+FIELDS = ("b_c", "bp", "bm", "coherent", "incoherent", "total", "absorption", "b_c_i", "bp_i", "bm_i",
+          "b_c_complex", "abundance", "is_energy_dependent")
+
+def record(atom):
+    try:
+        n = atom.neutron
+    except BaseException as e:
+        return exc(e)
+    if n is None:
+        return None
+    d = dict((f, val(lambda f=f: getattr(n, f))) for f in FIELDS)
+    d["has_table"] = val(lambda: n.nsf_table is not None)
+    d["has_sld"] = val(lambda: n.has_sld())
+    d["sld"] = val(lambda: n.sld())
+    return d
+
+def dump(table):
+    from periodictable import nsf
+    out = {"atoms": {}, "energy": {}}
+    for z in range(0, 119):
+        try:
+            el = table[z]
+            d = {"symbol": val(lambda: el.symbol), "density": val(lambda: el.density), "neutron": record(el), "isotopes": {}}
+            for a in list(el.isotopes):
+                iso = el[a]
+                i = {"neutron": record(iso)}
+                if "nuclear_spin" in getattr(iso, "__dict__", {}):
+                    i["nuclear_spin"] = val(lambda: iso.nuclear_spin)
+                d["isotopes"][str(a)] = i
+        except BaseException as e:
+            d = exc(e)
+        out["atoms"][str(z)] = d
+    import numpy as np
+    for key, energies in req["energy"].items():
+        sym, a = key.split("|")
+        try:
+            el = getattr(table, sym)
+            atom = el[int(a)] if int(a) else el
+            n = atom.neutron
+            lam = [float(nsf.neutron_wavelength(e * 1000)) for e in energies]
+            sc = [val(lambda w=w: complex(n.scattering_by_wavelength(w)[0])) for w in lam]
+            try:
+                vec = [{"complex": [float(x.real), float(x.imag)]} for x in n.scattering_by_wavelength(np.array(lam))[0]]
+            except BaseException as e:
+                vec = exc(e)
+            out["energy"][key] = {"scalar": sc, "vector": vec, "has_table": n.nsf_table is not None}
+        except BaseException as e:
+            out["energy"][key] = exc(e)
+    return out
+
+res = {"optimize": sys.flags.optimize, "warnoptions": list(sys.warnoptions), "first_touch": None}
+if req["variant"] == "plain":
+    _ = periodictable.elements[1].neutron.b_c
+else:
+    try:
+        _ = periodictable.elements[1].neutron.b_c
+    except BaseException as e:
+        res["first_touch"] = "%s: %s" % (type(e).__name__, e)
+res["public"] = dump(periodictable.elements)
+try:
+    from periodictable import nsf
+    T = core.PeriodicTable("c07-mode-private")
+    mass.init(T)
+    density.init(T)
+    try:
+        nsf.init(T)
+    except BaseException as e:
+        if req["variant"] == "plain":
+            raise
+        res["private_init"] = "%s: %s" % (type(e).__name__, e)
+    res["private"] = dump(T)
+except BaseException as e:
+    if req["variant"] == "plain":
+        raise
+    res["private"] = {"atoms": {}, "energy": {}, "failed": "%s: %s" % (type(e).__name__, e)}
+json.dump(res, sys.stdout)
+"""
+_MODE_DUMPS = {}
+
+
+class ChildRaised(Exception):
+    """The child interpreter got an exception where the sweep reads a value."""
+
+
+class ChildFailed(Exception):
+    """The child interpreter did not produce a dump."""
+
+
+def _unwrap(v, label):
+    if isinstance(v, dict):
+        if "exc" in v:
+            raise ChildRaised("%s raised %s" % (label, v["exc"]))
+        if "complex" in v:
+            return complex(v["complex"][0], v["complex"][1])
+        if "tuple" in v:
+            return tuple(_unwrap(x, label) for x in v["tuple"])
+    return v
+
+
+class _PNeutron(object):
+    def __init__(self, d, label):
+        self._d, self._label = d, label
+
+    def __getattr__(self, name):
+        d = self.__dict__["_d"]
+        if name == "nsf_table":
+            return object() if _unwrap(d["has_table"], self._label + ".neutron.nsf_table") else None
+        if name not in d:
+            raise AttributeError(name)
+        return _unwrap(d[name], "%s.neutron.%s" % (self.__dict__["_label"], name))
+
+    def has_sld(self):
+        return _unwrap(self._d["has_sld"], self._label + ".neutron.has_sld()")
+
+    def sld(self):
+        return _unwrap(self._d["sld"], self._label + ".neutron.sld()")
+
+
+class _PAtom(object):
+    def __init__(self, d, label, parent=None):
+        self._d, self._label = d, label
+        self._n = None
+
+    @property
+    def neutron(self):
+        r = self._d.get("neutron")
+        if r is None:
+            return None
+        if "exc" in r:
+            raise ChildRaised("%s.neutron raised %s" % (self._label, r["exc"]))
+        if self._n is None:
+            self._n = _PNeutron(r, self._label)
+        return self._n
+
+    def __getattr__(self, name):
+        d = self.__dict__.get("_d", {})
+        if name in ("symbol", "density", "nuclear_spin") and name in d:
+            return _unwrap(d[name], "%s.%s" % (self.__dict__["_label"], name))
+        raise AttributeError(name)
+
+
+class _PElement(_PAtom):
+    def __init__(self, z, d):
+        if "exc" in d:
+            d = {"symbol": d, "density": d, "neutron": d, "isotopes": {}}
+        sym = d.get("symbol")
+        _PAtom.__init__(self, d, sym if isinstance(sym, str) else "Z=%d" % z)
+        self.isotopes = sorted(int(a) for a in d["isotopes"])
+        self._isos = dict((int(a), _PAtom(v, "%s-%s" % (self._label, a))) for a, v in d["isotopes"].items())
+
+    def __getitem__(self, a):
+        try:
+            return self._isos[a]
+        except KeyError:
+            raise ChildRaised("%s has no isotope %r in the child interpreter" % (self._label, a))
+
+
+class _PTable(object):
+    def __init__(self, d):
+        self.energy = d["energy"]
+        self._els = dict((int(z), _PElement(int(z), v)) for z, v in d["atoms"].items())
+
+    def __getitem__(self, z):
+        try:
+            return self._els[z]
+        except KeyError:
+            raise ChildRaised("the child interpreter dumped no element %r" % (z,))
+
+
+def run_child(flags, script, stdin=""):
+    """Run *script* in /venv/bin/python <flags> with the repository under test first on the path."""
+    import json
+    import os
+    import subprocess
+    import sys
+    from ..runner import REPO
+    e = dict((k, v) for k, v in os.environ.items() if k not in ("PYTHONOPTIMIZE", "PYTHONWARNINGS", "PYTHONHASHSEED"))
+    e.update(PYTHONPATH=REPO, PYTHONDONTWRITEBYTECODE="1")
+    r = subprocess.run([sys.executable] + list(flags) + ["-c", script], input=stdin, capture_output=True, text=True,
+                       env=e, cwd="/tmp", timeout=600)
+    if r.returncode != 0:
+        raise ChildFailed("exit %d: %s" % (r.returncode, r.stderr.strip()[-600:]))
+    try:
+        return json.loads(r.stdout)
+    except ValueError as x:
+        raise ChildFailed("output is not JSON (%s): %s" % (x, r.stdout[-300:]))
+
+
+def mode_dump(config):
+    import json
+    _, flags, variant, which = config.split(":")
+    key = (flags, variant)
+    if key not in _MODE_DUMPS:
+        req = {"variant": variant,
+               "energy": dict(("%s|%d" % (sym, a or 0), [row[0] for row in nodes]) for (sym, a), nodes in oracle()["energy"].items())}
+        try:
+            _MODE_DUMPS[key] = run_child(MODES[flags], MODE_CHILD, json.dumps(req))
+        except ChildFailed as x:
+            _MODE_DUMPS[key] = x
+    d = _MODE_DUMPS[key]
+    if isinstance(d, ChildFailed):
+        raise d
+    return d
+
+
+def mode_env(config):
+    d = mode_dump(config)
+    which = config.split(":")[3]
+    key = (config, "table")
+    if key not in _MODE_DUMPS:
+        if d[which].get("failed"):
+            raise ChildFailed("private table could not be initialised: %s" % d[which]["failed"])
+        _MODE_DUMPS[key] = _PTable(d[which])
+    return _MODE_DUMPS[key]
+
+
 def env(config):
     """Table of a configuration; the construction order is what the name says."""
+    if config.startswith("mode:"):
+        return mode_env(config)
     if config in _ENV:
         return _ENV[config]
     import periodictable
@@ -435,11 +691,93 @@ def check_scan(ctx, case):
                         pb[...] = -12345.0
 
 
-CHECKS = {"row": check_row, "absent": check_absent, "node": check_node, "added": check_added, "scan": check_scan}
+def check_mode_node(ctx, case):
+    """case = {kind:'mode-node', config, sym, a}: every node of one energy table as evaluated in the child interpreter"""
+    O = oracle()
+    table = env(case["config"])
+    sym, a = case["sym"], case["a"]
+    nodes = O["energy"][(sym, a or None)]
+    label = "%s-%d" % (sym, a) if a else sym
+    d = table.energy.get("%s|%d" % (sym, a))
+    if d is None or "exc" in d:
+        raise ChildRaised("energy table %s: %s" % (label, (d or {}).get("exc", "not dumped")))
+    if not d["has_table"]:
+        raise V("energy:no-table", "%s has an energy-dependent table but neutron.nsf_table is None" % label, case)
+    for how in ("scalar", "vector"):
+        got = d[how]
+        if isinstance(got, dict):
+            _unwrap(got, "%s.neutron.scattering_by_wavelength (%s)" % (label, how))
+        if len(got) != len(nodes):
+            raise V("energy:vector-shape", "%s: %s evaluation returned %d values for %d nodes" % (label, how, len(got), len(nodes)), case)
+        for j, g in enumerate(got):
+            g = _unwrap(g, "%s.neutron.scattering_by_wavelength at %r eV" % (label, nodes[j][0]))
+            want = complex(nodes[j][1], nodes[j][2])
+            if not abs(g - want) <= 1e-12:
+                raise V("energy:node" + (":vector" if how == "vector" else ""),
+                        "%s at %r eV (node %d of %d): %r, table says %r" % (label, nodes[j][0], j, len(nodes), g, want), case)
+
+
+def check_mode_child(ctx, case):
+    """case = {kind:'mode-child', config, what}: the child interpreter runs; its guarded first touch does not raise"""
+    cfg = case["config"]
+    mode, variant = cfg.split(":")[1:3]
+    how = "python %s (%s first touch)" % (" ".join(MODES[mode]), variant)
+    try:
+        d = mode_dump(cfg)
+    except ChildFailed as x:
+        if case["what"] == "runs":
+            raise V("mode:%s:child-failed" % mode, "%s: the child interpreter failed: %s" % (how, x), case)
+        return
+    if case["what"] == "first-touch" and d.get("first_touch"):
+        raise V("mode:%s:first-touch-raised" % mode, "%s: the first read of H.neutron raised %s" % (how, d["first_touch"]), case)
+    if case["what"] == "private-init" and cfg.endswith(":private") and (d.get("private_init") or d["private"].get("failed")):
+        raise V("mode:%s:private-init-raised" % mode, "%s: nsf.init(private table) raised %s"
+                % (how, d.get("private_init") or d["private"].get("failed")), case)
+
+
+def _moded(fn):
+    """Clause wrapper: in an interpreter-mode configuration every finding goes to a bucket of that mode."""
+    def wrapped(ctx, case):
+        cfg = case["config"]
+        if not cfg.startswith("mode:"):
+            return fn(ctx, case)
+        mode = cfg.split(":")[1]
+        how = "python %s (%s first touch)" % (" ".join(MODES[mode]), cfg.split(":")[2])
+        try:
+            return fn(ctx, case)
+        except ChildFailed as x:
+            raise V("mode:%s:child-failed" % mode, "%s: the child interpreter failed: %s" % (how, x), case)
+        except ChildRaised as x:
+            raise V("mode:%s:exception" % mode, "%s: %s" % (how, x), case)
+        except Violation as v:
+            raise Violation("c07:mode:%s:%s" % (mode, v.bucket.split(":", 1)[1]), "%s: %s" % (how, v.message), v.case)
+    return wrapped
+
+
+CHECKS = {"row": _moded(check_row), "absent": _moded(check_absent), "node": check_node, "added": check_added,
+          "scan": check_scan, "mode-node": _moded(check_mode_node), "mode-child": check_mode_child}
+
+
+def _sym(el):
+    try:
+        return el.symbol
+    except ChildRaised:
+        return "?"
 
 
 def sweep(ctx, config):
     O = oracle()
+    reduced = config.startswith("mode:")
+    if reduced:
+        mode, variant = config.split(":")[1:3]
+        how = "python %s (%s first touch)" % (" ".join(MODES[mode]), variant)
+        ctx.case((config, "child"), nontrivial=True, sample={"config": config}, cls=["config:" + config])
+        for what in ("runs", "first-touch", "private-init"):
+            ctx.check(CHECKS["mode-child"], {"kind": "mode-child", "config": config, "what": what})
+        try:
+            table = env(config)
+        except ChildFailed:
+            return
     table = env(config)
 
     def run(case, key, sample, cls):
@@ -465,18 +803,22 @@ def sweep(ctx, config):
         el = table[z]
         how, src = O["element_src"].get(z, ("absent", None))
         if how == "sole-isotope":
-            run({"kind": "row", "z": z, "a": 0}, ("row", z, 0), {"element": el.symbol, "served-from": "%s-%d" % (el.symbol, src)},
+            run({"kind": "row", "z": z, "a": 0}, ("row", z, 0), {"element": _sym(el), "served-from": "%s-%d" % (_sym(el), src)},
                 ["element:from-sole-isotope-row"])
         elif how == "unjudged":
             ctx.count("element:several-isotope-rows-no-element-row(not judged)")
         elif how == "absent":
-            run({"kind": "absent", "z": z, "a": 0}, ("absent", z, 0), {"absent": el.symbol}, ["absent:element"])
+            run({"kind": "absent", "z": z, "a": 0}, ("absent", z, 0), {"absent": _sym(el)}, ["absent:element"])
         for a in list(el.isotopes):
             if (z, a) not in O["rows"]:
-                run({"kind": "absent", "z": z, "a": a}, ("absent", z, a), {"absent": "%s-%d" % (el.symbol, a)},
+                run({"kind": "absent", "z": z, "a": a}, ("absent", z, a), {"absent": "%s-%d" % (_sym(el), a)},
                     ["absent:isotope-of-" + ("element-without-rows" if how == "absent" else "element-with-rows")])
     for (sym, a), nodes in O["energy"].items():
         a = a or 0
+        if reduced:
+            run({"kind": "mode-node", "sym": sym, "a": a}, ("mode-node", sym, a),
+                {"energy-table": "%s-%d" % (sym, a) if a else sym, "nodes": len(nodes)}, ["energy-table:all-nodes-in-child"])
+            continue
         for k in range(len(nodes)):
             run({"kind": "node", "sym": sym, "a": a, "k": k, "vector": False}, ("node", sym, a, k, "scalar"),
                 {"energy-table": "%s-%d" % (sym, a) if a else sym, "eV": nodes[k][0]}, ["energy-node:scalar"])
@@ -497,7 +839,11 @@ def tasks(tier):
             ("sweep-private-only", task_sweep, dict(configs=["private-only", "private-only-added"])),
             ("sweep-private-after-public", task_sweep,
              dict(configs=["public", "private-after-public", "private-second", "public-after-private"])),
-            ("sweep-added-isotopes", task_sweep, dict(configs=["public-added", "private-added"]))]
+            ("sweep-added-isotopes", task_sweep, dict(configs=["public-added", "private-added"]))
+            ] + [("interpreter-mode-" + m, task_sweep,
+                  dict(configs=["mode:%s:%s:%s" % (m, v, t)
+                                for v, t in (("plain", "public"), ("guarded", "public"), ("guarded", "private"))]))
+                 for m in MODES]
 
 
 def replay(ctx, case):
